@@ -3,7 +3,7 @@ from checks import krill_common as kc
 
 PID = "C03"
 LEVEL = "model_checking"
-THEMES = "life,roll,multi,mix,foreign,deep".split(",")
+THEMES = "life,roll,multi,mix,foreign,deep,autosus".split(",")
 NEEDED = "Settled".split(",")
 
 RULE = (
@@ -70,10 +70,11 @@ def run(tier, seed):
                               "roa-replaced", "shrink-to-nothing",
                               "foreign-limit-shrink",
                               "parent-removed-with-children",
-                              "parent-removed-deep-roll-suspended")
+                              "parent-removed-deep-roll-suspended",
+                              "auto-suspend-inactive-children")
                   + kc.TA_DIRECTED[:1]),
         theme_nums={"multi": (6, 80), "mix": (6, 60), "foreign": (4, 60),
-                    "deep": (6, 80)})
+                    "deep": (6, 80), "autosus": (4, 60)})
 
 
 def replay(path, seed):
